@@ -187,10 +187,18 @@ async fn check_methods(methods: &Methods, model: &Model, what: &str, fails: &mut
 				if code != Some(-32601) {
 					fails.push((format!("c13/{what}-unbound-name-answered"), format!("{n} is unbound but the call gave {v}")));
 				}
+				if let Ok(got) = methods.call::<_, Value>(n, jsonrpsee_core::params::ArrayParams::new()).await {
+					fails.push((format!("c13/{what}-unbound-name-answered"), format!("{n} is unbound but Methods::call gave {got}")));
+				}
 			}
 			Some(Tag::Method(t)) => {
 				if v["result"] != json!(t) {
 					fails.push((format!("c13/{what}-dispatch-to-wrong-handler"), format!("{n} is bound to handler {t} but the call gave {v}")));
+				}
+				// the typed helper reaches the same handler
+				match methods.call::<_, u32>(n, jsonrpsee_core::params::ArrayParams::new()).await {
+					Ok(got) if got == *t => {}
+					other => fails.push((format!("c13/{what}-dispatch-to-wrong-handler"), format!("Methods::call({n}) gave {other:?}, bound handler is {t}"))),
 				}
 			}
 			Some(Tag::Sub(_)) => {
